@@ -171,6 +171,9 @@ def activations(log, invid='inv', state='s0', prole='parent', pqueue='X0'):
         # uninvoke belongs to the macrostep (or the completion) in which the state was left
         if left is not None:
             lo = left - base
+            # (a tree that cancels on exit calls uninvoke inside the exit, before afterExitingState)
+            while lo > 0 and not (seg[lo - 1][0] == 'parent' and (seg[lo - 1][1].startswith('mon.ev/') or seg[lo - 1][1] in ('mon.ms', 'mon.stable', 'mon.bcompl'))):
+                lo -= 1
             hi = len(seg)
             o['closed_by'] = None
             for k in range(lo, len(seg)):
@@ -251,28 +254,35 @@ def routing_ok(log, invid, fwd):
     is registered is enqueued at X1 by the parent, in the same order"""
     bad = []
     rc = 'c.' + invid
+    depth = {'parent': 0, 'c.inv': 1, 'c.ginv': 2}      # nesting depth of the sending session
     for role, pt in log:
         if not pt.startswith('q.enq/'):
             continue
         _, q, name = pt.split('/', 2)
+        d = depth.get(role)
+        if d is None:
+            continue
         if re.fullmatch(r'm\d+', name) or name.startswith('done.invoke.'):
-            if fwd == 'auto' and role == 'parent' and q == 'X1':
+            if fwd == 'auto' and q == 'X%d' % (d + 1):
                 continue        # the forwarded copy
-            if not (q == 'X0' and role == rc): bad.append('%s by %s at %s' % (name, role, q))
+            if not (d >= 1 and q == 'X%d' % (d - 1)): bad.append('%s by %s at %s' % (name, role, q))
         elif name == 'go':
-            if not (q == 'X1' and role == 'parent'): bad.append('go by %s at %s' % (role, q))
+            if q != 'X%d' % (d + 1): bad.append('go by %s at %s' % (role, q))
         elif name == 'ci':
-            if not (q == 'I1' and role == rc): bad.append('ci by %s at %s' % (role, q))
+            if q != 'I%d' % d: bad.append('ci by %s at %s' % (role, q))
         elif name == 'cx':
-            if not (q == 'X1' and role == rc): bad.append('cx by %s at %s' % (role, q))
+            if q != 'X%d' % d: bad.append('cx by %s at %s' % (role, q))
     if fwd == 'auto':
         # per registration period: the events the parent processes are forwarded in the same order;
         # forwarding stops (eventFromSCXML drops) only once the invoked session has left its run loop
         periods = []
         cur = None
+        started = {'ended': False}
         for role, pt in log:
+            if role == 'parent' and pt == 'mon.binv/' + invid:
+                started = {'ended': False}       # the session may finish before afterInvoking is reported
             if role == 'parent' and pt == 'mon.ainv/' + invid:
-                cur = {'ev': [], 'fw': [], 'ended': False}
+                cur = {'ev': [], 'fw': [], 'ended': started['ended']}
                 periods.append(cur)
             elif role == 'parent' and pt == 'mon.buninv/' + invid:
                 cur = None
@@ -283,6 +293,8 @@ def routing_ok(log, invid, fwd):
                     cur['fw'].append(pt.split('/', 2)[2])
                 elif role == rc and pt == 'invoker.run.finished':
                     cur['ended'] = True
+            if cur is None and role == rc and pt == 'invoker.run.finished':
+                started['ended'] = True
         for p_ in periods:
             n = len(p_['fw'])
             if p_['fw'] != p_['ev'][:n] or (n < len(p_['ev']) and not p_['ended']):
@@ -298,6 +310,7 @@ def bookkeeping_trace(log, invmap):
     cfgs, steps, micro = [], [], []
     cur, curms, ex, en = [], [], [], []
     compl = None
+    partial = False     # the last entry is the unfinished macrostep that led into completion
     for role, pt in log:
         if role != 'parent':
             continue
@@ -315,6 +328,7 @@ def bookkeeping_trace(log, invmap):
             if cur or curms:
                 # calls made after the last stable configuration but before completion
                 steps.append(cur); cfgs.append(sorted(cfg)); micro.append(curms); cur, curms = [], []
+                partial = True
         elif pt == 'mon.acompl':
             compl = cur
             cur = []
@@ -322,7 +336,7 @@ def bookkeeping_trace(log, invmap):
             cfgs.append(sorted(cfg))
             steps.append(cur); micro.append(curms)
             cur, curms = [], []
-    return cfgs, steps, compl, micro
+    return cfgs, steps, compl, micro, partial
 
 
 # ------------------------------------------------------------------------------------- model side
@@ -356,6 +370,20 @@ def model_items(trace, inv='inv'):
         _, kind, k = after[0]
         items += [rc + (':mon.exec/log/pre%d' % k if kind == 'P1' else ':invoker.run.finished')]
     return items
+
+
+def run_one(exe, line, tries=5):
+    """one line through a driver; the binary may be in the middle of being re-linked by another check"""
+    import time
+    for t in range(tries):
+        try:
+            rc, out, err = run_lines(exe, [line])
+            if out:
+                return out[0]
+        except OSError:
+            pass
+        time.sleep(1.0)
+    return 'CRASH rc=exec'
 
 
 def kv(line):
@@ -442,6 +470,11 @@ def run(c):
         for eng in ('large', 'fast'):
             refw_lines.append(rline(eng, pf, wsch['script'], wsch['items']))
             refw_keys.append((wsch, eng))
+    tw = corpus['teardown_witness']
+    cx = child_chart(tuple(tw['child']), 'go')
+    tw_pf = write_pair('wit_teardown', parent_chart(cx, 'wit_teardown_child.scxml', True, 'send', False), None)
+    tw_lines = [rline(eng, tw_pf, tw['script'], tw['items'], wd=4000, pto=1000) for eng in ('large', 'fast')]
+    tw_model = run_lines(vmodel, ['teardown %d %s %s' % (k_, tw['start'], ','.join(tw['labels'])) for k_ in (0, 1)])[1]
     refw_model = run_lines_sharded(vmodel, ['run %d %s' % (W, ','.join(w_['labels'])) for w_ in corpus['witness_schedules']])[0]
 
     # ---- 2. forced schedules: model schedules -> signature -> replay -------------------------
@@ -555,7 +588,7 @@ def run(c):
                 run_keys.append(dict(kind='nested', shape=('never', 1), engine=eng, fwd='send', finalize=False, content=False,
                                      file=pf, script=scr, items=[], tag='nested'))
 
-    pre = wl + refw_lines
+    pre = wl + refw_lines + tw_lines
     allouts, crashes = run_lines_sharded(vdriver, pre + run_lines_l, shards=NCPU * 2)
     outs = allouts[len(pre):]
     results = [parse_out(o) for o in outs]
@@ -564,7 +597,7 @@ def run(c):
     transient = []
     for i, r_ in enumerate(results):
         if r_['status'] in ('watchdog', 'hang', 'CRASH', 'empty'):
-            again = [parse_out(run_lines(vdriver, [run_lines_l[i]])[1][0]) for _ in range(2)]
+            again = [parse_out(run_one(vdriver, run_lines_l[i])) for _ in range(2)]
             if all(a_['status'] == 'ok' for a_ in again):
                 transient.append({'cmd': run_lines_l[i], 'first': r_['raw'][:300]})
                 results[i] = again[-1]
@@ -575,7 +608,8 @@ def run(c):
     c.notes['defect_vector'] = vec
     clears = {'large': vec['completion_skips_uninvoke_large'], 'fast': 0}
     wit_runs = []
-    for (wsch, eng), o_, in zip(refw_keys, allouts[len(wl):len(pre)]):
+    tw_res = [parse_out(o_) for o_ in allouts[len(wl) + len(refw_lines):len(pre)]]
+    for (wsch, eng), o_, in zip(refw_keys, allouts[len(wl):len(wl) + len(refw_lines)]):
         res = parse_out(o_)
         obs = activations(res['log'])
         o = obs[0] if obs else {}
@@ -588,6 +622,25 @@ def run(c):
                              observed={k: o.get(k) for k in ('done', 'alone', 'enq_during_uninvoke', 'after_return', 'before_done')},
                              stuck=res['stuck'], unconsumed=res['rem'], cmd=refw_lines[refw_keys.index((wsch, eng))]))
     c.notes['refuted_witness_replays'] = wit_runs
+    # the teardown witness: the model says "stuck"; on the implementation uninvoke must then not return
+    tw_hang = []
+    for eng, res in zip(('large', 'fast'), tw_res):
+        hung = res['status'] in ('watchdog', 'hang') and ('parent', 'mon.buninv/inv') in res['log'] and ('parent', 'mon.auninv/inv') not in res['log']
+        tw_hang.append(hung)
+        # switch: lost wake-up in ~BasicDelayedEventQueue (pinned) or repaired (sticky wake-up); the model
+        # variant that is selected must predict what was observed
+        vec['teardown_lost_wakeup_' + eng] = 1 if hung else 0
+        tm = tw_model[0 if hung else 1]
+        wit_runs.append(dict(witness='teardown_witness', theorem=tw['theorem'], engine=eng, model=tm,
+                             realised=(res['status'] in ('ok', 'watchdog', 'hang') and hung == ('stuck=1' in tm)),
+                             observed=res['status'], cmd=tw_lines[0 if eng == 'large' else 1]))
+        if hung:
+            viol.append(('uninvoke-never-returns:' + eng, dict(engine=eng, file=tw_pf, script=tw['script'], schedule=tw['items'], kind='oracle',
+                          what='uninvoke does not return: after the join of the invoked session\'s thread the invoker is destroyed, '
+                               '~BasicDelayedEventQueue::stop() breaks a loop the delayed-event thread has not entered yet and then joins it '
+                               '(lost wake-up; also seen unforced as sporadic hangs, see no_return_not_reproducible)',
+                          expected='parent:mon.auninv/inv and the run returns', observed=res['raw'][:1200],
+                          replay_cmd="echo '%s' | %s" % (tw_lines[0 if eng == 'large' else 1], vdriver))))
     tick('replays')
 
     # ---- 4. judge every run -------------------------------------------------------------------
@@ -675,11 +728,16 @@ def run(c):
     for idx, (key, res) in enumerate(zip(run_keys, results)):
         if res['status'] != 'ok' or key['kind'] == 'nested':
             continue
-        cfgs, steps, compl, micro = bookkeeping_trace(res['log'], {'inv': 1})
+        cfgs, steps, compl, micro, partial = bookkeeping_trace(res['log'], {'inv': 1})
         if not cfgs:
             continue
         eng = key['engine']
         if vec['no_restart_on_reentry_' + eng]:
+            if partial and not steps[-1]:
+                # the engines do not run the end-of-macrostep bookkeeping before completion
+                cfgs, steps = cfgs[:-1], steps[:-1]
+                if not cfgs:
+                    continue
             cs = '/'.join('.'.join(str(sidx(x)) for x in sorted(cf, key=sidx)) or '-' for cf in cfgs)
             bl.append('bk %s %d 1 %s %d' % (eng, clears[eng], cs, 1 if compl is not None else 0))
             bkeys.append((idx, 'bk', steps, compl))
@@ -829,24 +887,25 @@ def run(c):
                 pass
         c.violation(payload)
     wit_bad = [w for w in wit_runs if not w['realised']]
-    if not viol:
-        rep = []
-        if wit_bad: rep.append(('refuted-witness-not-realised', wit_bad[0], len(wit_bad)))
-        if mismatches: rep.append(('model-vs-replay', mismatches[0], len(mismatches)))
-        if bk_dis: rep.append(('bookkeeping', bk_dis[0], len(bk_dis)))
-        if route_dis: rep.append(('routing-model', dict(target=route_dis[0][0].decode('latin-1'), impl=route_dis[0][3], model=route_dis[0][4]), len(route_dis)))
-        if inconsistent: rep.append(('model-independence', dict(case=str(inconsistent[0][0]), outcomes=inconsistent[0][1]), len(inconsistent)))
-        for kind, ex, n in rep:
-            c.violation(dict(kind='correspondence', which=kind, count=n, example=ex,
-                             what='model and implementation disagree without an oracle failure on the implementation side'), no_input=True)
+    # model / implementation disagreements are reported whether or not other inputs failed the oracle:
+    # none of the failing inputs above is a forced replay whose outcome the model predicts differently
+    rep = []
+    if wit_bad: rep.append(('refuted-witness-not-realised', wit_bad[0], len(wit_bad)))
+    if mismatches: rep.append(('model-vs-replay', mismatches[0], len(mismatches)))
+    if bk_dis: rep.append(('bookkeeping', bk_dis[0], len(bk_dis)))
+    if route_dis: rep.append(('routing-model', dict(target=route_dis[0][0].decode('latin-1'), impl=route_dis[0][3], model=route_dis[0][4]), len(route_dis)))
+    if inconsistent: rep.append(('model-independence', dict(case=str(inconsistent[0][0]), outcomes=inconsistent[0][1]), len(inconsistent)))
+    had_input = bool(c.violations)
+    for kind, ex, n in rep:
+        c.violation(dict(kind='correspondence', which=kind, count=n, example=ex,
+                         what='model and implementation disagree; no input on which the implementation fails the oracle invoke_protocolb explains it'),
+                    no_input=True)
+    if not had_input:      # no failing input was reported (known findings do not count)
         for b in broken:
             c.violation({'kind': 'obligation', 'theorem': b['name'], 'why': b.get('why', '')}, no_input=True)
     else:
         for b in broken:
             log('broken obligation %s (failing inputs reported above)' % b['name'])
-        for kind, lst in (('model-vs-replay', mismatches), ('bookkeeping', bk_dis), ('routing-model', route_dis), ('model-independence', inconsistent)):
-            if lst:
-                log('%d %s disagreements, e.g. %s' % (len(lst), kind, str(lst[0])[:600]))
     return c.finish()
 
 
